@@ -11,101 +11,101 @@ func init() {
 	register(&PropSpec{ID: "C19",
 		Explanation: "Decides, from the SSA form of /repo, that (a) no writer or exported formatting helper writes through memory reachable from the cue list or a package-level variable (interprocedural mod-sets with root classification), (b) every range over a map in the writers' call-graph closure carries only order-insensitive state (map inserts, integer sums, appends that are sorted before any use), (c) no clock/random/environment source other than the injectable Now and no address-printing fmt operand is reachable from a writer. Together these imply the output bytes are a function of the cue list and Now. Not decided: determinism of encoding/xml and fmt themselves.",
 		Assumptions: commonAssumptions,
-		Rules:       []Rule{{"writer-purity", ruleWriterPurity}, {"maporder", ruleMapOrder}, {"nondet", ruleWriterNondet}},
+		Rules:       []Rule{{"writer-purity", ruleWriterPurity}, {"maporder", ruleMapOrder}, {"nondet", ruleWriterNondet}, {"positive-control", rulePositiveControls("param-write", "maporder", "nondet")}},
 	})
 	register(&PropSpec{ID: "C20",
 		Explanation: "Decides that outside the package initialiser no function of the library stores to a package-level variable, to memory reachable from one, or to unknown memory (interprocedural effect analysis over all 153 functions, incl. the per-call teletext decoder which must copy the shared G0 table before patching it), that there is no go/select statement and no unsafe import, and lists every global read with its classification. Independent calls then share only immutable tables, documented goroutine-safe library objects (regexp, Replacer, BiMap, log) and the injectable clock. Not decided: races inside dependencies.",
 		Assumptions: commonAssumptions,
-		Rules:       []Rule{{"no-global-write", ruleNoSharedState}, {"zero-concurrency", ruleZeroConcurrency}},
+		Rules:       []Rule{{"no-global-write", ruleNoSharedState}, {"zero-concurrency", ruleZeroConcurrency}, {"positive-control", rulePositiveControls("global-write", "go-stmt")}},
 	})
 	register(&PropSpec{ID: "C16",
 		Explanation: "Structural agreement clauses of the timestamp codec, per format: the separator and digit count the writer wrapper passes to formatDuration and the separators / millisecond scale the reader wrapper passes to parseDuration are extracted as constants and must agree (writer separator among the reader's, scale 3, 2 or 3 digits); each codec entry point reaches only its own wrappers; the WebVTT inline-timestamp pattern accepts the writer's shape; STL formatter and parser take the frame rate from the same gsiBlock field. Not decided: truncation, field ranges, padding for every value, monotonicity, self-inverse per value, the 30 fps frame loss — statements about floor/divide on 8.6e7 values that need evaluation or a solver.",
 		Assumptions: commonAssumptions,
-		Rules: []Rule{{"timestamp-format", ruleDurationFormats()}},
+		Rules:       []Rule{{"timestamp-format", ruleDurationFormats()}},
 	})
 	register(&PropSpec{ID: "C17",
 		Explanation: "Decides that (R8.1) every io.Reader parameter of the library flows only into consumers documented to loop over short reads (bufio.Scanner/Reader, xml.Decoder, astits.Demuxer, io.ReadFull/ReadAtLeast/ReadAll) or into in-package functions that do the same, that no method Read([]byte) is called directly anywhere in the package (zero-rule with a positive control), and (R8.2) by enumerating all paths of every bufio.SplitFunc installed in the package with an interval domain over len(data), the terminator index and atEOF, that whenever a length-guarded look-ahead byte has not arrived and atEOF is not known true the function returns (0, nil, nil), and that every returned token advances. Given these, every byte the package interprets comes from a consumer whose output is independent of read sizes. Not decided: that bufio, encoding/xml and astits honour that documentation.",
 		Assumptions: commonAssumptions,
-		Rules: []Rule{{"reader-flow", ruleReaderFlow}, {"split-lookahead", ruleSplitFunc}},
+		Rules:       []Rule{{"reader-flow", ruleReaderFlow}, {"split-lookahead", ruleSplitFunc}, {"positive-control", rulePositiveControls("raw-read")}},
 	})
 	register(&PropSpec{ID: "C18",
 		Explanation: "Decides on the SSA control-flow graphs of the reader/writer closures and of package main that (R7.1) the error of every I/O error source (Read/Write invokes, io.ReadFull, xml Decoder/Encoder, astits demuxer, os.Open/Create, scanner.Err, and every in-package function that transitively returns such an error) is tested or returned, and that from its non-nil edge every path ends in a return carrying a provably non-nil error (or log.Fatal in main) without rejoining normal flow, except for a frozen list of end-of-input sentinel conversions; (R7.2) after bufio.Scanner.Scan has returned false no possibly-nil-error return is reachable without consulting Err() (read failure and ErrTooLong are delivered only there); (R7.3) buffered sinks are flushed on success paths. Not decided: Close errors; that a short write is accompanied by an error (io.Writer contract).",
 		Assumptions: commonAssumptions,
-		Rules: []Rule{{"propagation", ruleErrPropagation}, {"scanner-err", ruleScannerErr}, {"flush", ruleFlush}},
+		Rules:       []Rule{{"propagation", ruleErrPropagation}, {"scanner-err", ruleScannerErr}, {"flush", ruleFlush}},
 	})
 	register(&PropSpec{ID: "C08",
 		Explanation: "Totality, panic classes raised by the package's own code: over the call-graph closure of the six readers, Open/OpenFile, the five writers, Write and the exported formatting helpers, every dereference / map store / interface or function-value call (E1: forward must-dataflow of non-nil facts over access paths, with error-correlated results, constructor-non-nil fields and call-site joins for unexported parameters), every index and slice expression (E2: difference constraints from dominating tests, range/counted loops, library length contracts and interprocedural length facts), every integer division, single-result type assertion and explicit panic (E3), and every loop (E4: progress classification) is decided on all paths; unproved sites are either audited residue (rules/residue.txt) or reported.",
 		Assumptions: commonAssumptions,
-		Rules: []Rule{{"nilderef", ruleNilDeref}, {"nil-element", ruleNilProducer}, {"support-currentPage", ruleSupportCurrentPage}, {"support-teletext-tables", ruleTeletextTables}, {"bounds", ruleBounds}, {"divzero", ruleDivZero}, {"typeassert", ruleTypeAssert}, {"explicit-panic", rulePanicCalls}, {"support-framerate", ruleSupportFramerate}, {"loops", ruleLoops}},
+		Rules:       []Rule{{"nilderef", ruleNilDeref}, {"nil-element", ruleNilProducer}, {"support-currentPage", ruleSupportCurrentPage}, {"support-teletext-tables", ruleTeletextTables}, {"bounds", ruleBounds}, {"divzero", ruleDivZero}, {"typeassert", ruleTypeAssert}, {"explicit-panic", rulePanicCalls}, {"support-framerate", ruleSupportFramerate}, {"loops", ruleLoops}, {"positive-control", rulePositiveControls("panic")}},
 	})
 	register(&PropSpec{ID: "C01",
 		Explanation: "Structural agreement clauses of the SubRip codec: (a) the HTML escape and unescape tables (constant arguments of the two strings.NewReplacer calls) are exact inverses, every escaped form starts with '&', '&' itself is escaped, no escaped form prefixes another — the necessary condition for '&', '<' and NBSP surviving; (b) in the run tokenizer the start-tag and end-tag switches cover the same tags and write the same state fields, every state field is copied into the attributes captured per text run, and the writer closes the tags it opens in reverse order and emits only tags the reader handles; (c) writer separator ∈ reader separators at millisecond scale. Not decided: any equality between decoded documents (line endings, index handling, trailing blank lines, state reset per cue).",
 		Assumptions: commonAssumptions,
-		Rules: []Rule{{"escape-tables", ruleEscapeTables}, {"srt-tags", ruleSRTTags}, {"timestamp-format", ruleDurationFormats("SRT")}},
+		Rules:       []Rule{{"escape-tables", ruleEscapeTables}, {"srt-tags", ruleSRTTags}, {"timestamp-format", ruleDurationFormats("SRT")}},
 	})
 	register(&PropSpec{ID: "C02",
 		Explanation: "Structural agreement clauses of the WebVTT codec: every cue setting (separator ':') and region setting (separator '=') the writer emits is parsed by the reader's switch into the same model field (tables extracted from the constant+field concatenations of the writer and the switch arms of the reader); escape tables are inverse; all region definitions are emitted before the cue loop starts; timestamp separator/scale agree and the inline-timestamp pattern accepts the writer's shape. Not decided: tag-stack semantics, voice extraction, comment attachment, STYLE content, round trip.",
 		Assumptions: commonAssumptions,
-		Rules: []Rule{{"settings", ruleWebVTTSettings}, {"escape-tables", ruleEscapeTables}, {"timestamp-format", ruleDurationFormats("WebVTT")}},
+		Rules:       []Rule{{"settings", ruleWebVTTSettings}, {"escape-tables", ruleEscapeTables}, {"timestamp-format", ruleDurationFormats("WebVTT")}},
 	})
 	register(&PropSpec{ID: "C03",
 		Explanation: "Structural agreement clauses of the TTML codec: each of the tts: attributes, header/subtitle/item attributes, metadata elements and element paths has the same XML local name (and attribute-ness) on the input and output structs (struct tags compared field by field); each style attribute is wired In.X → StyleAttributes.F → Out.X through the same F; every offset-time metric the grammar constant admits (alternatives of capture group 3, parsed with regexp/syntax) is handled by UnmarshalText; the language table is used forwards by the reader and backwards by the writer and covers the same languages as STL's; MarshalText/UnmarshalText separator and scale agree. Not decided: values of time expressions, <br/> handling, style inheritance links (shared-parent overwrite is a value-level map collision), character coverage.",
 		Assumptions: commonAssumptions,
-		Rules: []Rule{{"attributes", ruleTTMLAttributes}, {"code-maps", ruleSTLCodeMaps}, {"timestamp-format", ruleDurationFormats("TTML")}},
+		Rules:       []Rule{{"attributes", ruleTTMLAttributes}, {"code-maps", ruleSTLCodeMaps}, {"timestamp-format", ruleDurationFormats("TTML")}},
 	})
 	register(&PropSpec{ID: "C04",
 		Explanation: "Structural agreement clauses of the SSA/ASS codec: (a) every style column name is bound to the same ssaStyle field by the Format-line builder (updateFormat), the row writer (string) and the row reader (newSSAStyleFromString), event columns likewise (string / newSSAEventFromString / the Format list of WriteToSSA) and script-info names (bytes / parse); the model converters are mutually inverse (style ↔ StyleAttributes, script info ↔ Metadata); (b) the literal the row writer prints for a true boolean and for Marked is one the reader takes as true; (c) section headers written are sections read; (d) colour prefix and radix agree. Tables are extracted from the SSA switch arms and stores of /repo on every run. Not decided: Format-permutation behaviour, text splitting, idempotent rewrite.",
 		Assumptions: commonAssumptions,
-		Rules: []Rule{{"columns", ruleSSAColumns}, {"literals", ruleSSALiterals}, {"timestamp-format", ruleDurationFormats("SSA")}},
+		Rules:       []Rule{{"columns", ruleSSAColumns}, {"literals", ruleSSALiterals}, {"timestamp-format", ruleDurationFormats("SSA")}},
 	})
 	register(&PropSpec{ID: "C05",
 		Explanation: "Structural agreement clauses of the EBU STL codec, decided by evaluating constants and literal tables of /repo and comparing sibling implementations: (T3) the 1024-byte GSI and 128-byte TTI layouts — writer part widths and reader slice offsets extracted per field — agree field by field, sum to the block sizes and do not overlap; (T2) every character the writer tables encode is decoded back to itself by the reader table, printable ASCII the writer passes through is decoded as itself, no table has duplicate keys or values; (T4) justification code maps are mutually inverse, frame-rate table rows are 8-byte keys with positive rates, STL and TTML language tables cover the same languages; (A5) GSI ↔ Metadata wiring agrees in both directions; every division by the frame rate is guarded. Not decided: timecode quantisation, diacritic composition, style runs, teletext-vs-open display-standard behaviour.",
 		Assumptions: commonAssumptions,
-		Rules: []Rule{{"layouts", ruleSTLLayouts}, {"char-tables", ruleSTLCharTables}, {"code-maps", ruleSTLCodeMaps}, {"metadata-wiring", ruleSTLMetadataWiring}, {"support-framerate", ruleSupportFramerate}, {"timestamp-format", ruleDurationFormats("STL")}},
+		Rules:       []Rule{{"layouts", ruleSTLLayouts}, {"char-tables", ruleSTLCharTables}, {"code-maps", ruleSTLCodeMaps}, {"metadata-wiring", ruleSTLMetadataWiring}, {"support-framerate", ruleSupportFramerate}, {"timestamp-format", ruleDurationFormats("STL")}},
 	})
 	register(&PropSpec{ID: "C06",
 		Explanation: "Exclusion clause of teletext decoding only (packets of other pages, magazines, PIDs, non-subtitle units never contribute text; characters failing parity contribute none; only boxed text): the chain of control-dependence guards on the only path along which bytes reach a cue's text is decided on the SSA dominator tree — parsePacketData only under receiving ∧ magazine match ∧ 1 ≤ packet ≤ 25; parsePacket only for data-unit id 0x03, framing code 0xe4 and two successful Hamming decodes; parseDataUnit only for EBU data identifiers; process only for the teletext PID, private stream 1 and a presentation time; a page instance starts only on page ∧ magazine match; run text grows only after a start-box; the stored byte is ByteParity's result or 0. Tables: every teletextCharsets row sets g0, national positions < 96, 700+ entries are single UTF-8 runes, colour codes 0–7 map to black…white with the CSS RGB values. Not decided: page scheduling, timing, serial/parallel termination, auto-detection — behaviours of a state machine over the packet sequence; there is no sibling encoder to cross-check against.",
 		Assumptions: commonAssumptions,
-		Rules: []Rule{{"guards", ruleTeletextGuards}, {"tables", ruleTeletextTables}},
+		Rules:       []Rule{{"guards", ruleTeletextGuards}, {"tables", ruleTeletextTables}},
 	})
 	register(&PropSpec{ID: "C07",
 		Explanation: "Structural clauses of any-to-any conversion: (a) the extension tables of Open and Subtitles.Write are extracted from the SSA switch and must agree (same codec family per extension, .ts read-only), be case-insensitive and default to ErrInvalidExtension; (b) every writer returns before its first Write/Encode when the list is empty; (c) the CLI sub-command table equals the documented one (operation, flag variables in order, then Write(-o)); (d) no writer dereferences Metadata, styles' or regions' inline style or any optional pointer without a nil test (E1 restricted to the writers' closure). Not decided: cue preservation across the 35 format pairs and operation sequences.",
 		Assumptions: commonAssumptions,
-		Rules: []Rule{{"ext-dispatch", ruleExtDispatch}, {"cli-dispatch", ruleCLIDispatch()}, {"empty-list-guard", ruleEmptyListGuard}, {"writers-nil-tolerant", ruleWritersNilTolerant}},
+		Rules:       []Rule{{"ext-dispatch", ruleExtDispatch}, {"cli-dispatch", ruleCLIDispatch()}, {"empty-list-guard", ruleEmptyListGuard}, {"writers-nil-tolerant", ruleWritersNilTolerant}},
 	})
 	register(&PropSpec{ID: "C09",
 		Explanation: "Structural clauses of Sync (Subtitles.Add): frame condition (writes only StartAt, EndAt and the item slice); both boundaries of a cue receive the same update expression; the in-place deletion rewinds the loop index on every path; the CLI sync sub-command calls Add with the -s flag and then writes. Not decided: that the shift equals d, the clamp, exactly which cues are removed.",
 		Assumptions: commonAssumptions,
-		Rules: []Rule{{"frame", ruleFrame("Subtitles.Add")}, {"twin-update", ruleTwinUpdate("Subtitles.Add")}, {"delete-rewind", ruleDeleteRewind("Subtitles.Add")}, {"cli", ruleCLIDispatch("sync")}},
+		Rules:       []Rule{{"frame", ruleFrame("Subtitles.Add")}, {"twin-update", ruleTwinUpdate("Subtitles.Add")}, {"delete-rewind", ruleDeleteRewind("Subtitles.Add")}, {"cli", ruleCLIDispatch("sync")}},
 	})
 	register(&PropSpec{ID: "C10",
 		Explanation: "Structural clauses of Fragment: frame condition; every new piece is a whole-value copy of its source item; every path from an insertion to a return passes Order(); CLI fragment → Fragment(-f). Not decided: where the cuts fall (the known last-listed-cue bound fault is a run-time bound and stays invisible).",
 		Assumptions: commonAssumptions,
-		Rules: []Rule{{"frame", ruleFrame("Subtitles.Fragment")}, {"whole-copy", ruleWholeCopy}, {"order-after-insert", ruleOrderAfter}, {"cli", ruleCLIDispatch("fragment")}},
+		Rules:       []Rule{{"frame", ruleFrame("Subtitles.Fragment")}, {"whole-copy", ruleWholeCopy}, {"order-after-insert", ruleOrderAfter}, {"cli", ruleCLIDispatch("fragment")}},
 	})
 	register(&PropSpec{ID: "C11",
 		Explanation: "Structural clauses of Unfragment: frame condition (only EndAt and the slice); delete-rewind on the inner index; Order() dominates the scan; the merge test compares Item.String() of both cues and that function reads every run's text; CLI unfragment. Not decided: which pairs merge, the fixpoint, the inverse law against Fragment.",
 		Assumptions: commonAssumptions,
-		Rules: []Rule{{"frame", ruleFrame("Subtitles.Unfragment")}, {"delete-rewind", ruleDeleteRewind("Subtitles.Unfragment")}, {"order-before-scan", ruleOrderBefore}, {"text-identity", ruleTextIdentity}, {"cli", ruleCLIDispatch("unfragment")}},
+		Rules:       []Rule{{"frame", ruleFrame("Subtitles.Unfragment")}, {"delete-rewind", ruleDeleteRewind("Subtitles.Unfragment")}, {"order-before-scan", ruleOrderBefore}, {"text-identity", ruleTextIdentity}, {"cli", ruleCLIDispatch("unfragment")}},
 	})
 	register(&PropSpec{ID: "C12",
 		Explanation: "Order: only permutes (frame), through sort.SliceStable with a strict < on StartAt of (i, j). Merge: s.Items = append(s.Items, i.Items...) then Order() (receiver first, stable ⇒ A's cues ahead of B's on equal starts); definitions stored only on the not-found edge of a lookup under the same key (receiver wins); no effect rooted at the argument; no store into a nil map (receivers built without the constructor); CLI merge. With a correct library sort these are the statement. Not decided: correctness of sort.SliceStable.",
 		Assumptions: commonAssumptions,
-		Rules: []Rule{{"frame-order", ruleFrame("Subtitles.Order")}, {"frame-merge", ruleFrame("Subtitles.Merge")}, {"stable-order", ruleStableOrder}, {"merge-shape", ruleMergeShape}, {"merge-nil-maps", ruleNilDerefIn("Subtitles.Merge", "Subtitles.Order")}, {"cli", ruleCLIDispatch("merge")}},
+		Rules:       []Rule{{"frame-order", ruleFrame("Subtitles.Order")}, {"frame-merge", ruleFrame("Subtitles.Merge")}, {"stable-order", ruleStableOrder}, {"merge-shape", ruleMergeShape}, {"merge-nil-maps", ruleNilDerefIn("Subtitles.Merge", "Subtitles.Order")}, {"cli", ruleCLIDispatch("merge")}},
 	})
 	register(&PropSpec{ID: "C13",
 		Explanation: "Optimize: only deletes map entries (frame), only when the list has a cue, under the key being ranged; the marking code reads every reference edge of the model (every *Style / *Region field of Item, Line, LineItem, Region, Style, computed from the type declarations, incl. Style.Style). RemoveStyling: writes all and only the styling fields (computed from the types), with nil / empty-map values. CLI optimize. Not decided: closure depth beyond reading each edge, idempotence, write/read-back.",
 		Assumptions: commonAssumptions,
-		Rules: []Rule{{"frame-optimize", ruleFrame("Subtitles.Optimize")}, {"frame-removestyling", ruleFrame("Subtitles.RemoveStyling")}, {"reference-edges", ruleOptimizeEdges}, {"styling-complete", ruleRemoveStylingComplete}, {"optimize-guard", ruleOptimizeGuard}, {"cli", ruleCLIDispatch("optimize")}},
+		Rules:       []Rule{{"frame-optimize", ruleFrame("Subtitles.Optimize")}, {"frame-removestyling", ruleFrame("Subtitles.RemoveStyling")}, {"reference-edges", ruleOptimizeEdges}, {"styling-complete", ruleRemoveStylingComplete}, {"optimize-guard", ruleOptimizeGuard}, {"cli", ruleCLIDispatch("optimize")}},
 	})
 	register(&PropSpec{ID: "C14",
 		Explanation: "Structural clauses of ForceDuration: frame (only EndAt and the slice); the filler is appended only on the true edge of the addDummyItem parameter; every store is dominated by the false edge of Duration() == d whose true edge returns at once; Duration has no effect. Not decided: which cues are trimmed, the resulting duration, the filler interval.",
 		Assumptions: commonAssumptions,
-		Rules: []Rule{{"frame", ruleFrame("Subtitles.ForceDuration")}, {"frame-duration", ruleFrame("Subtitles.Duration")}, {"guards", ruleForceDurationGuards}},
+		Rules:       []Rule{{"frame", ruleFrame("Subtitles.ForceDuration")}, {"frame-duration", ruleFrame("Subtitles.Duration")}, {"guards", ruleForceDurationGuards}},
 	})
 	register(&PropSpec{ID: "C15",
 		Explanation: "Structural clauses of ApplyLinearCorrection: frame (only StartAt/EndAt, never the slice or its order); both boundaries are mapped by the identical expression (tree isomorphism up to the field swap); CLI passes a1, d1, a2, d2 in that order. Not decided: that the expression is the affine map within 1 µs (floating-point values).",
 		Assumptions: commonAssumptions,
-		Rules: []Rule{{"frame", ruleFrame("Subtitles.ApplyLinearCorrection")}, {"twin-update", ruleTwinUpdate("Subtitles.ApplyLinearCorrection")}, {"cli", ruleCLIDispatch("apply-linear-correction")}},
+		Rules:       []Rule{{"frame", ruleFrame("Subtitles.ApplyLinearCorrection")}, {"twin-update", ruleTwinUpdate("Subtitles.ApplyLinearCorrection")}, {"cli", ruleCLIDispatch("apply-linear-correction")}},
 	})
 }
